@@ -417,7 +417,9 @@ class Sparse:
 
 
 class Case:
-    def __init__(self, tag, files, argv, ndebug=True, cols=None, dest=None, meta=None):
+    def __init__(self, tag, files, argv, ndebug=True, cols=None, dest=None, meta=None, tool='dfs', stdin=None):
+        self.tool = tool            # 'dfs' or 'basic'
+        self.stdin = stdin          # bytes for standard input (basic)
         self.tag = tag
         self.files = files          # {relative name: bytes}
         self.argv = argv            # list of str/bytes; '@name' prefix is replaced by the absolute path
@@ -456,6 +458,31 @@ def run_cases(cases, impl_bin, kind_env=None, workers=16, timeout=20):
             os.makedirs(d)
             c.dir = d
             reqs.append('clearfiles')
+            if c.tool == 'basic':
+                for name, content in c.files.items():
+                    p = os.path.join(d, name)
+                    with open(p, 'wb') as f:
+                        f.write(content)
+                    reqs.append('bfile %s %s' % (hexarg(p), p))
+                if c.stdin is not None:
+                    sp = os.path.join(d, '.stdin')
+                    with open(sp, 'wb') as f:
+                        f.write(c.stdin)
+                    reqs.append('bstdin %s' % sp)
+                else:
+                    reqs.append('bstdin -')
+                av = []
+                for a in c.argv:
+                    if isinstance(a, str):
+                        a = a.encode('latin-1')
+                    if a.startswith(b'@'):
+                        a = os.path.join(d, a[1:].decode('latin-1')).encode('latin-1')
+                    av.append(a)
+                c.real_argv = av
+                c.nreq = len(c.files) + 1
+                reqs.append('bmain ' + ' '.join(hexarg(a) for a in av))
+                continue
+            c.nreq = len(c.files)
             for name, content in c.files.items():
                 p = os.path.join(d, name)
                 if isinstance(content, Sparse):
@@ -498,7 +525,7 @@ def run_cases(cases, impl_bin, kind_env=None, workers=16, timeout=20):
             raise RuntimeError('model driver failed rc=%s (%d/%d): %s' % (rc, len(out), len(reqs), err[-500:]))
         k = 0
         for c in cases:
-            k += 1 + len(c.files)
+            k += 1 + c.nreq
             c.model = parse_model_line(out[k])
             k += 1
 
@@ -509,7 +536,8 @@ def run_cases(cases, impl_bin, kind_env=None, workers=16, timeout=20):
             before = set()
             if c.dest:
                 before = set(os.listdir(os.path.join(c.dir, c.dest)))
-            rc, so, se = run_cmd([impl_bin] + c.real_argv, env=env, timeout=timeout, cwd=c.dir)
+            binary = impl_bin[c.tool] if isinstance(impl_bin, dict) else impl_bin
+            rc, so, se = run_cmd([binary] + c.real_argv, stdin=(c.stdin or b''), env=env, timeout=timeout, cwd=c.dir)
             files = {}
             if c.dest:
                 dd = os.path.join(c.dir, c.dest)
